@@ -27,7 +27,9 @@ import (
 
 // Normalize compose project by moving deprecated attributes to their canonical position and injecting implicit defaults
 func Normalize(dict map[string]any, env types.Mapping) (map[string]any, error) {
-	normalizeNetworks(dict)
+	if err := normalizeNetworks(dict); err != nil {
+		return nil, err
+	}
 
 	if d, ok := dict["services"]; ok {
 		services, ok := d.(map[string]any)
@@ -176,10 +178,13 @@ func Normalize(dict map[string]any, env types.Mapping) (map[string]any, error) {
 	return dict, nil
 }
 
-func normalizeNetworks(dict map[string]any) {
+func normalizeNetworks(dict map[string]any) error {
 	var networks map[string]any
 	if n, ok := dict["networks"]; ok {
-		networks = n.(map[string]any)
+		networks, ok = n.(map[string]any)
+		if !ok {
+			return fmt.Errorf("networks must be a mapping")
+		}
 	} else {
 		networks = map[string]any{}
 	}
@@ -188,9 +193,15 @@ func normalizeNetworks(dict map[string]any) {
 	usesDefaultNetwork := false
 
 	if s, ok := dict["services"]; ok {
-		services := s.(map[string]any)
+		services, ok := s.(map[string]any)
+		if !ok {
+			return fmt.Errorf("services must be a mapping")
+		}
 		for name, se := range services {
-			service := se.(map[string]any)
+			service, ok := se.(map[string]any)
+			if !ok {
+				return fmt.Errorf("services.%s must be a mapping", name)
+			}
 			if _, ok := service["network_mode"]; ok {
 				continue
 			}
@@ -199,7 +210,10 @@ func normalizeNetworks(dict map[string]any) {
 				service["networks"] = map[string]any{"default": nil}
 				usesDefaultNetwork = true
 			} else {
-				net := n.(map[string]any)
+				net, ok := n.(map[string]any)
+				if !ok {
+					return fmt.Errorf("services.%s.networks must be a mapping", name)
+				}
 				if len(net) == 0 {
 					// networks section declared but empty (corner case)
 					service["networks"] = map[string]any{"default": nil}
@@ -221,6 +235,7 @@ func normalizeNetworks(dict map[string]any) {
 	if len(networks) > 0 {
 		dict["networks"] = networks
 	}
+	return nil
 }
 
 func resolve(a any, fn func(s string) (string, bool), keepEmpty bool) (any, bool) {
